@@ -1,7 +1,16 @@
 """Shared by c18.py and c19.py: correspondence for the COMPOSED model (C-ABI RequestHandlerWrapper as an
 instance of the server core, Model/FfiServer.v + Model/Server.v) against a live C-ABI TCP server driven
 with raw request frames (harness ffi_wire), and against the reference server (Spec/Modbus.v) over the same
-handler. Properties/C18_System.v and C19_System.v hold the theorems."""
+handler. Properties/C18_System.v and C19_System.v hold the theorems.
+
+Two evaluations in Coq, kept apart on purpose:
+  Spec  - Spec/FfiWireSpec.run_wire_spec: reference Modbus server over the database model and the programmable
+          application, write results read through Spec/FfiSpec.write_result_spec. It imports NO generated table, so it
+          still evaluates when a change to ffi/rodbus-ffi/src/server.rs makes Gen/FfiTables.v impossible to regenerate;
+          the implementation is judged against it first (concrete failing scenario).
+  Model - Model/FfiWire.run_wire: the composed code model (and the reference server over the C-ABI handler built from
+          the regenerated tables); needs Gen/FfiTables.v."""
+import re
 import vlib
 
 TYPES = {'c': 'Coil', 'd': 'Discrete', 'h': 'Holding', 'i': 'Input'}
@@ -77,7 +86,108 @@ def gen_case(r, flavour):
     return ' '.join(groups)
 
 
+def rd(t, a, n=1, who='S'):
+    return f'X:{who}:' + bytes([FC_READ[t]] + be(a) + be(n)).hex().upper()
+
+
+def gen_interleaved(r):
+    """update transactions, accepted writes and refused writes (exception from the callback, absent point, failing
+    later item, unset callbacks) interleaved, each followed by reads of ALL four point types at the addresses a
+    callback or transaction may have changed"""
+    null = r.random() < 0.12
+    low = r.sample(range(0, 12), r.choice([3, 4, 6]))
+    high = r.sample([366, 367, 368, 369, 401, 402, 403, 65533, 65534, 65535], 2)
+    pool = low + high
+    init = []
+    for a in low:
+        for t in 'cdhi':
+            if r.random() < (0.8 if t in 'ch' else 0.5):
+                init.append(f'a{t}{a}={r.choice([0, 1]) if t in "cd" else r.randrange(65536)}')
+    r.shuffle(init)
+    groups = (['H:null'] if null else []) + ['I:' + ';'.join(init)] if init else (['H:null'] if null else [])
+    touched = []
+
+    def reads(addrs, p=0.8):
+        out = []
+        for a in addrs:
+            for t in 'cdhi':
+                if r.random() < p:
+                    out.append(rd(t, a))
+        if r.random() < 0.3 and addrs:
+            a = max(0, min(addrs) - r.choice([0, 1]))
+            out.append(rd(r.choice('cdhi'), a, min(r.choice([2, 3, 4]), 65536 - a)))
+        return out
+    for _ in range(r.choice([2, 3, 4, 6])):
+        k = r.random()
+        if k < 0.3:
+            os_, used = [], []
+            for _ in range(r.choice([1, 2, 4])):
+                t, a = r.choice('cdhi'), r.choice(pool)
+                kind = r.choices('aud', weights=[5, 3, 2])[0]
+                v = r.choice([0, 1]) if t in 'cd' else r.choice([0, 1, 65535, r.randrange(65536)])
+                os_.append(f'{kind}{t}{a}' + (f'={v}' if kind in 'au' else ''))
+                used.append(a)
+            if r.random() < 0.35:
+                # the transaction callback itself sends a client write to the same unit and waits for it
+                a = r.choice(pool + used)
+                if r.random() < 0.5:
+                    pdu = [6] + be(a) + be(r.choice([1, 65535, r.randrange(65536)]))
+                else:
+                    pdu = [5] + be(a) + r.choice([[0xFF, 0], [0, 0]])
+                groups.append('W:' + ';'.join(os_) + '|' + bytes(pdu).hex().upper())
+                used.append(a)
+                groups += reads([a] + used[:1], 0.9)
+            else:
+                groups.append('T:' + ';'.join(os_))
+                groups += reads(used[:2], 0.5)
+            touched += used
+        else:
+            refused = r.random() < 0.45
+            wk = r.choice(['sc', 'sr', 'mc', 'mr'])
+            if refused:
+                a = r.choice([100 + r.randrange(10), 110 + r.choice([0, 1, 7, 200, 255]), r.choice([12, 13, 14, 15, 50, 99])])
+                if wk in ('mc', 'mr') and r.random() < 0.6:
+                    a = 98 if r.random() < 0.5 else 99                 # absent points, then 100.. = callback exceptions
+            else:
+                a = r.choice(pool)
+            if wk == 'sc':
+                pdu = [5] + be(a) + r.choice([[0xFF, 0], [0, 0]])
+                n = 1
+            elif wk == 'sr':
+                pdu = [6] + be(a) + be(r.choice([0, 1, 65535, r.randrange(65536)]))
+                n = 1
+            elif wk == 'mc':
+                n = min(r.choice([1, 2, 3, 4]), 65536 - a)
+                pdu = [15] + be(a) + be(n) + [1, r.randrange(16)]
+            else:
+                n = min(r.choice([1, 2, 3, 4]), 65536 - a)
+                pdu = [16] + be(a) + be(n) + [2 * n] + [x for _ in range(n) for x in be(r.choice([0, 1, r.randrange(65536)]))]
+            groups.append('X:S:' + bytes(pdu).hex().upper())
+            span = [a + j for j in range(n) if a + j < 65536]
+            groups += reads(span[:2] + (touched[-2:] if refused else []), 0.7)
+            touched += span
+    final = list(dict.fromkeys(touched + low[:2]))
+    r.shuffle(final)
+    groups += reads(final[:3], 1.0)
+    return ' '.join(groups)
+
+
 CORPUS = [
+    # write callbacks that change the read-only types: coil 1 on -> discrete input 1 added true; register 2 -> input
+    # register 2; register 3 -> discrete input 3 and input register 3 deleted; each read back
+    'I:ac1=0;ah2=0;ah3=0;ad3=1;ai3=7 X:S:050001FF00 X:S:0200010001 X:S:0100010001 X:S:0600021234 X:S:0400020001 X:S:0300020001 '
+    'X:S:0200030001 X:S:0400030001 X:S:0600030005 X:S:0200030001 X:S:0400030001 X:S:0300030001',
+    'X:S:0601710007 X:S:0201710001 X:S:0501720000 X:S:0401720001 X:S:0101720001 X:S:10017100020400010002 X:S:0401720001',
+    # transactions, then a REFUSED write (callback exception / absent point / later item fails), then reads of all types
+    'I:ah0=1 T:ah5=9;ai5=3;ac5=1;ad5=1 X:S:0600640001 X:S:0300050001 X:S:0400050001 X:S:0100050001 X:S:0200050001',
+    'I:ah0=1;ac0=0 X:S:0600000002 T:uh0=7;ai6=6;dc0 X:S:0500630000 X:S:0300000001 X:S:0400060001 X:S:0100000001 T:gh0;gi6;gc0',
+    'I:ah1=0;ah2=0 T:ad2=1 X:S:100001000306000100020003 X:S:0300010002 X:S:0200010002 X:S:0400020001 X:S:0200020001',
+    # a client write sent from INSIDE a transaction callback: served after the whole transaction, both effects stay
+    'I:ah0=1 W:uh0=5|0600000009 X:S:0300000001',
+    'I:ah0=1;ah1=1 W:uh1=5;ai7=3|0601710009 X:S:0301710001 X:S:0300010001 X:S:0400070001 X:S:0201710001',
+    'I:ac2=0 W:ad9=1|050002FF00 X:S:0100020001 X:S:0400020001 X:S:0200090001',
+    # unset callbacks: exception 01, nothing changes, transactions stay
+    'H:null I:ah0=1 T:ah5=9;ad5=1 X:S:0600000002 X:S:0300000001 X:S:0300050001 X:S:0200050001 X:S:0500050000 X:S:0F0005000101FF X:S:10000000010200FF',
     'I:ah0=5;ah1=6;ac0=1 X:S:0300000002 X:S:0300000003 X:S:06000000FF X:S:0300000001 X:S:0600650001 X:S:0600960001 X:S:060170000A X:S:0301700001 '
     'X:N:0300000001 X:N:99 X:S:99 X:S:0500000000 X:S:0100000001 T:gh0;gc0 X:S:10000000020400010002 X:S:0300000002 X:S:0F00000002010300',
     'I:ah65534=8;ah65535=9 X:S:03FFFE0002 X:S:03FFFF0001 X:S:03FFFF0002',
@@ -100,45 +210,100 @@ def op_to_coq(o):
 def to_coq(case):
     items = []
     for g in case.split():
+        if g[0] == 'H':
+            continue
+        if g[0] == 'W':
+            # a write sent from inside a transaction callback is served after the whole transaction
+            o, hx = g[2:].split('|')
+            items.append('IOps [' + '; '.join(op_to_coq(x) for x in o.split(';') if x) + ']')
+            items.append(f'IFrame 1 {vlib.coq_N_list(bytes.fromhex(hx))}')
+            continue
         if g[0] in 'IT':
             items.append('IOps [' + '; '.join(op_to_coq(o) for o in g[2:].split(';') if o) + ']')
         else:
             _, who, hx = g.split(':')
             items.append(f'IFrame {1 if who == "S" else 9} {vlib.coq_N_list(bytes.fromhex(hx))}')
-    return '[' + '; '.join(items) + ']'
+    return f'({vlib.coq_bool("H:null" not in case.split())}, [' + '; '.join(items) + '])'
 
 
-FN = 'fun items : list item => run_wire true items ++ "|" ++ run_wire false items'
+CT = 'bool * list item'
+SPEC_REQ = ['Base.Show', 'Model.DbTypes', 'Spec.FfiWireSpec']
+SPEC_FN = 'fun c : bool * list item => run_wire_spec (fst c) (snd c)'
+MODEL_REQ = ['Base.Show', 'Model.DbTypes', 'Spec.FfiWireSpec', 'Model.FfiWire']
+FN = 'fun c : bool * list item => run_wire (fst c) true (snd c) ++ "|" ++ run_wire (fst c) false (snd c)'
+
+
+def split_inside(lines):
+    """`... cb=3 inside=1` -> ('... cb=3', 1)"""
+    out, ins = [], []
+    for ln in lines:
+        m = re.fullmatch(r'(.*) inside=(\d+)', ln)
+        out.append(m.group(1) if m else ln)
+        ins.append(int(m.group(2)) if m else 0)
+    return out, ins
+
+
+def expand(case):
+    """groups with a W group shown as the transaction followed by the request"""
+    for g in case.split():
+        if g[0] == 'W':
+            o, hx = g[2:].split('|')
+            yield 'T:' + o
+            yield 'X:S:' + hx
+        else:
+            yield g
+
+
+def spec_eval(ctx, cases):
+    return ctx.coq_eval(SPEC_REQ, SPEC_FN, [to_coq(c) for c in cases], case_type=CT, preamble='Local Open Scope string_scope.', per_shard=150)
 
 
 def check_system(ctx, flavour, n, tag):
-    """returns (n cases, classes); records obligations / violations under ctx"""
+    """returns (n cases, classes, samples); records obligations / violations under ctx"""
     if ctx.replay and 'cases' in ctx.replay:
         cases = [c[1] for c in ctx.replay['cases'] if c[0] == 'wire']
     else:
         cases = list(CORPUS)
+        share = 0.45 if flavour == 'read' else 0.25
         while len(cases) < n:
-            cases.append(gen_case(ctx.rng, flavour))
+            cases.append(gen_interleaved(ctx.rng) if ctx.rng.random() < share else gen_case(ctx.rng, flavour))
     if not cases:
         return 0, {}, []
-    impl = ctx.harness('ffi_wire', cases, timeout=1200)
+    impl, inside = split_inside(ctx.harness('ffi_wire', cases, timeout=1200))
+    # the Spec side must evaluate whatever happened to the generated tables
+    rc, out = vlib.coq_make([vlib.vo('Spec.FfiWireSpec')])
+    if not ctx.oblige(f'system-spec-compiles({tag})', rc == 0, '' if rc == 0 else str(vlib.parse_coq_error(out) or out[-300:])):
+        return len(cases), {}, []
+    try:
+        spec = spec_eval(ctx, cases)
+    except vlib.ModelEvalError as e:
+        ctx.oblige(f'system-spec-evaluates({tag})', False, str(e)[:300])
+        return len(cases), {}, []
     if getattr(ctx, 'models_ok', True):
         try:
-            both = ctx.coq_eval(['Base.Show', 'Model.DbTypes', 'Model.FfiWire'], FN, [to_coq(c) for c in cases], case_type='list item',
-                                preamble='Local Open Scope string_scope.', per_shard=150)
+            both = ctx.coq_eval(MODEL_REQ, FN, [to_coq(c) for c in cases], case_type=CT, preamble='Local Open Scope string_scope.', per_shard=150)
         except vlib.ModelEvalError as e:
             ctx.oblige('system-model-evaluates', False, str(e)[:300])
             both = [None] * len(cases)
     else:
         both = [None] * len(cases)
     bad = 0
-    classes = {'read-values': 0, 'read-exception-02': 0, 'write-echo': 0, 'write-exception': 0, 'exception-01-03': 0, 'silence': 0}
-    for c, i, b in zip(cases, impl, both):
+    classes = {'read-values': 0, 'read-exception-02': 0, 'write-echo': 0, 'write-exception': 0, 'exception-01-03': 0, 'silence': 0,
+               'read-after-refused-write': 0, 'read-of-read-only-type-after-accepted-write': 0, 'unset-callback': 0, 'transaction-then-refused-write': 0}
+    classes['write-sent-inside-transaction'] = 0
+    for c, i, sp, b, ins in zip(cases, impl, spec, both, inside):
         toks = i.split(';')
         pos = 0
-        for g in c.split():
+        null = 'H:null' in c.split()
+        last_write = None                     # 'ok' / 'refused' : outcome of the latest write request seen
+        txn_pending = False
+        classes['write-sent-inside-transaction'] += sum(1 for g in c.split() if g[0] == 'W')
+        for g in expand(c):
+            if g[0] == 'H':
+                continue
             if g[0] in 'IT':
                 pos += len([o for o in g[2:].split(';') if o])
+                txn_pending = txn_pending or g[0] == 'T'
                 continue
             tok = toks[pos] if pos < len(toks) else ''
             pos += 1
@@ -146,6 +311,19 @@ def check_system(ctx, flavour, n, tag):
                 classes['silence'] += 1
             elif len(tok) >= 18 and all(ch in '0123456789ABCDEF' for ch in tok):
                 fc, code = int(tok[14:16], 16), int(tok[16:18], 16)
+                if fc & 0x7F in (5, 6, 15, 16) and not (fc & 0x80 and code == 3):
+                    last_write = 'refused' if fc & 0x80 else 'ok'
+                    if fc & 0x80 and txn_pending:
+                        classes['transaction-then-refused-write'] += 1
+                    if not fc & 0x80:
+                        txn_pending = False
+                    if null and fc & 0x80 and code == 1:
+                        classes['unset-callback'] += 1
+                if fc & 0x7F in (1, 2, 3, 4) and not (fc & 0x80 and code == 3):
+                    if last_write == 'refused':
+                        classes['read-after-refused-write'] += 1
+                    if last_write == 'ok' and fc & 0x7F in (2, 4):
+                        classes['read-of-read-only-type-after-accepted-write'] += 1
                 if fc & 0x80:
                     if fc & 0x7F in (1, 2, 3, 4) and code == 2:
                         classes['read-exception-02'] += 1
@@ -157,17 +335,13 @@ def check_system(ctx, flavour, n, tag):
                     classes['read-values'] += 1
                 else:
                     classes['write-echo'] += 1
-        if b is None:
-            continue
-        model, ref = b.split('|')
-        if i != ref:
+        model, ref = b.split('|') if b is not None else (None, None)
+        if i != sp:
             bad += 1
             if bad == 1:
                 def differs(cs):
-                    im = ctx.harness('ffi_wire', cs, timeout=600)
-                    bo = ctx.coq_eval(['Base.Show', 'Model.DbTypes', 'Model.FfiWire'], FN, [to_coq(x) for x in cs], case_type='list item',
-                                      preamble='Local Open Scope string_scope.', per_shard=150)
-                    return [x != y.split('|')[1] for x, y in zip(im, bo)]
+                    im = split_inside(ctx.harness('ffi_wire', cs, timeout=600))[0]
+                    return [x != y for x, y in zip(im, spec_eval(ctx, cs))]
 
                 def cands(case):
                     gs = case.split()
@@ -183,23 +357,34 @@ def check_system(ctx, flavour, n, tag):
                                     yield ' '.join(gs[:k] + [g[:2] + ';'.join(rest)] + gs[k + 1:])
                 try:
                     c = vlib.shrink_batch(c, differs, cands)
-                    i = ctx.harness('ffi_wire', [c], timeout=600)[0]
-                    model, ref = ctx.coq_eval(['Base.Show', 'Model.DbTypes', 'Model.FfiWire'], FN, [to_coq(c)], case_type='list item',
-                                              preamble='Local Open Scope string_scope.')[0].split('|')
+                    (i,), (ins,) = split_inside(ctx.harness('ffi_wire', [c], timeout=600))
+                    sp = spec_eval(ctx, [c])[0]
+                    model = None
+                    if b is not None:
+                        model = ctx.coq_eval(MODEL_REQ, FN, [to_coq(c)], case_type=CT, preamble='Local Open Scope string_scope.')[0].split('|')[0]
                 except Exception:
                     pass
-            if bad <= 1:
-                ii, rr = i.split(';'), ref.split(';')
+                ii, rr = i.split(';'), sp.split(';')
                 pos = next((k for k in range(min(len(ii), len(rr))) if ii[k] != rr[k]), min(len(ii), len(rr)))
                 got = ii[pos] if pos < len(ii) else '(missing)'
                 want = rr[pos] if pos < len(rr) else '(missing)'
-                ctx.violation(f'c-abi-server-wire-reply.{tag}', f'C-ABI TCP server, scenario `{c}`: output #{pos + 1} on the wire is {got}, the reference Modbus server over the C-ABI handler gives {want}',
-                              {'cases': [['wire', c]], 'impl': i, 'spec': ref, 'model': model})
-        elif i != model:
+                note = ''
+                if ins:
+                    note = (' (the write request sent from inside the update_database callback was ANSWERED while the transaction was still running: '
+                            'the handler was not locked during the transaction)')
+                ctx.violation(f'c-abi-server-wire-reply.{tag}', f'C-ABI TCP server, scenario `{c}`: output #{pos + 1} on the wire is {got}, the reference Modbus server over the C-ABI database and the application\'s callbacks gives {want}{note}',
+                              {'cases': [['wire', c]], 'impl': i, 'spec': sp, 'model': model, 'answered_inside_transaction': ins})
+        elif ins:
+            bad += 1
+            if bad <= 2:
+                ctx.violation(f'write-served-inside-transaction.{tag}', f'C-ABI TCP server, scenario `{c}`: {ins} write request(s) sent from inside the rodbus_server_update_database callback were answered '
+                              'while the transaction was still running (a transaction is one critical section of the unit: the request must wait for it)',
+                              {'cases': [['wire', c]], 'impl': i + f' inside={ins}', 'spec': sp + ' inside=0', 'model': model})
+        elif b is not None and (i != model or i != ref):
             bad += 1
             if bad <= 3:
-                ctx.violation(f'composed-model-differs-from-impl.{tag}', f'{c}: composed model {model}, implementation and reference {ref}',
-                              {'cases': [['wire', c]], 'impl': i, 'spec': ref, 'model': model}, no_failing_input=True)
+                ctx.violation(f'composed-model-differs-from-impl.{tag}', f'{c}: composed model {model}, reference server over the regenerated C-ABI handler {ref}, implementation and Spec {sp}',
+                              {'cases': [['wire', c]], 'impl': i, 'spec': sp, 'model': model}, no_failing_input=True)
     ctx.oblige(f'correspondence:c-abi-server-wire-level({tag})', bad == 0, f'{bad} disagreements on {len(cases)} scenarios')
     if not ctx.replay:
         missing = [k for k, v in classes.items() if v < 5]
